@@ -16,6 +16,7 @@ import random
 from hypothesis import strategies as st
 
 from vf.core import hyp, pool
+from vf.core.lib import library_exceptions_are_findings as _guard
 from vf.core.stats import Finding, Stats
 from vf.ref import ssh as ref
 
@@ -1071,6 +1072,7 @@ _CHECKERS = {'banner': _check_banner, 'message': _check_message, 'key': _check_k
              'tables': _check_tables}
 
 
+@_guard
 def check_case(case):
     return _CHECKERS[case['kind']](case)
 
